@@ -1755,18 +1755,29 @@ func checkE3(c *Ctx, r *Report) {
 	}
 	var pkgCall *ssa.Call
 	var create *ssa.Call
-	forEachInstr(dp, func(in ssa.Instruction) {
-		call, ok := in.(*ssa.Call)
-		if !ok {
-			return
+	// in doPackage itself, or in the helper of the command that creates the
+	// file and packages into it
+	for _, fn := range sortedFuncs(c, c.Reach(dp)) {
+		if !strings.HasPrefix(c.funcPkgPath(fn), modPath+"/internal/cmd") {
+			continue
 		}
-		if call.Call.IsInvoke() && call.Call.Method.Name() == "Package" && isNamed(call.Call.Value.Type(), modPath, "Packager") {
-			pkgCall = call
+		var pc, cr *ssa.Call
+		forEachInstr(fn, func(in ssa.Instruction) {
+			call, ok := in.(*ssa.Call)
+			if !ok {
+				return
+			}
+			if call.Call.IsInvoke() && call.Call.Method.Name() == "Package" && isNamed(call.Call.Value.Type(), modPath, "Packager") {
+				pc = call
+			}
+			if calleeIs(call, "os", "", "Create") {
+				cr = call
+			}
+		})
+		if pc != nil && cr != nil {
+			pkgCall, create = pc, cr
 		}
-		if calleeIs(call, "os", "", "Create") {
-			create = call
-		}
-	})
+	}
 	if pkgCall == nil || create == nil {
 		r.Unresolved("doPackage: Packager.Package call / os.Create", "CLI mechanism not found")
 		return
